@@ -170,6 +170,15 @@ def render_isar(draw, schema):
                 else:
                     members.append('<enum-member name="%s" value="%s"/>' % (n, ir._xml(e)))
             out.append('<enum name="%s">%s</enum>' % (d.name, ''.join(members)))
+        elif isinstance(d, Union):
+            arms = []
+            for a in d.arms:
+                if a.disc >= (1 << 31) and a.disc_expr == str(a.disc) and draw(st.booleans()):
+                    arms.append('<member name="%s" type="%s" discriminatorValue="%d"/>' % (a.name, a.type, a.disc - (1 << 32)))
+                    forms.add('negative_discriminator')
+                else:
+                    arms.append('<member name="%s" type="%s" discriminatorValue="%s"/>' % (a.name, a.type, ir._xml(a.disc_expr)))
+            out.append('<union name="%s">%s</union>' % (d.name, ''.join(arms)))
         else:
             out.append(ir.render_isar_decl(d))
     out.append('</defs>')
